@@ -19,7 +19,7 @@ DATES = {
     's': ['2020-01-01T00:00:%02d' % i for i in range(10)],
 }
 NAMES = [None, 'nm', {'t': ['x', 'y']}]
-FLAT_CLASSES = [('IndexGO', 6), ('auto', 3), ('auto_static', 1.5), ('IndexDateGO', 1.5), ('IndexYearMonthGO', 0.7),
+FLAT_CLASSES = [('IndexGO', 6), ('auto', 3), ('auto_static', 1.5), ('dt64_plain', 0.8), ('IndexDateGO', 1.5), ('IndexYearMonthGO', 0.7),
                 ('IndexYearGO', 0.7), ('IndexSecondGO', 0.5), ('Index', 0.7), ('IndexDate', 0.3)]
 IX_DERIVES = ['copy', 'deepcopy', 'pickle', 'static', 'go', 'rename', 'relabel', 'roll', 'sort', 'iloc_sel', 'iloc_slice', 'iloc_slice', 'iloc_mask',
               'loc_sel', 'drop_iloc', 'head', 'tail', 'union', 'intersection', 'difference', 'astype',
@@ -56,6 +56,12 @@ class IndexOps:
             op['auto'] = True
             op['labels'] = list(range(n if cls == 'auto' else ch.randint(0, 9)))
             return op
+        if cls == 'dt64_plain':
+            # a plain IndexGO built from a datetime64 array (as FrameGO(columns=array_of_dates) gets it)
+            op['cls'] = 'IndexGO'
+            op['dt64'] = ch.choice(['D', 'ns', 's'])
+            op['labels'] = ch.sample(DATES['D'], n)
+            return op
         op['cls'] = cls
         u = DATE_UNITS.get(cls)
         if u:
@@ -79,7 +85,13 @@ class IndexOps:
         fam, pool = label_pool(m)
         held = m.labels()
         if fault:
-            kind = ch.weighted([('dup', 4 if m.raw else 0), ('unhashable', 2), ('bad', 1 if fam == 'date' else 0)])
+            ints = [x for x in m.raw if isinstance(x, (int, np.integer)) and not isinstance(x, (bool, np.bool_))]
+            kind = ch.weighted([('dup', 4 if m.raw else 0), ('unhashable', 2), ('bad', 1 if fam == 'date' else 0),
+                                ('eqfloat', 2 if ints else 0), ('nptype', 0.7 if fam != 'date' else 0)])
+            if kind == 'eqfloat':
+                return float(ch.choice(ints))  # equal to a held label by Python equality (1.0 == 1)
+            if kind == 'nptype':
+                return {'nptype': ch.choice(['float64', 'int64'])}
             if kind == 'dup':
                 x = ch.choice(m.raw)
                 if fam == 'date':
@@ -194,10 +206,15 @@ class IndexOps:
             return 'skip'
         dup = len(set(norm_list(coerced))) != len(coerced)
         route = op.get('route', 'list')
-        if op.get('auto'):
+        if op.get('dt64'):
+            coerced = [np.datetime64(x, op['dt64']) for x in labels]
+            st, r = call(lambda: sf.IndexGO(np.array(labels, dtype='datetime64[%s]' % op['dt64']), name=name))
+        elif op.get('auto'):
             if labels != list(range(len(labels))):
                 return 'skip'
-            if cls == 'Index':
+            if False:
+                pass
+            elif cls == 'Index':
                 # the default (auto-integer, map-less) index of a Series, as every user gets it
                 st, r = call(lambda: sf.Series(np.arange(len(labels)) * 2).index.rename(name))
             else:
@@ -239,6 +256,8 @@ class IndexOps:
         auto = '-auto' if e.extra.get('auto') else ''
         if unhashable(label):
             return 'may', 'unhashable' + auto
+        if isinstance(label, type):
+            return 'may', 'numpy-type-label' + auto
         u = m.unit
         if u is not None:
             try:
@@ -494,6 +513,8 @@ class IndexOps:
         # date matching on lookup; such indices are not generated (DESIGN 9, corrections)
         if m.unit is not None and how in ('astype', 'relabel'):
             return 'skip'
+        if how == 'level_add' and any(isinstance(x, np.datetime64) and np.datetime_data(x.dtype)[0] == 'ns' for x in m.raw):
+            return 'skip'  # known: 2-D values of a hierarchy present nanosecond labels as integers (KNOWN_FINDINGS: audit C02/violation7)
         if o is not None and (m.unit is None) != (oe.model.unit is None):
             return 'skip'
         st, r = call(mk)
@@ -554,10 +575,30 @@ class IndexOps:
             st0, p0 = call(obj.loc_to_iloc, lab)
             if st0 == 'raise' or not isinstance(p0, (int, np.integer)) or int(p0) != len(m.raw) - 1:
                 fail('C02.bijection', f'first read after growth: loc_to_iloc({lab!r}) -> {p0!r}, expected {len(m.raw) - 1}')
+        if P in ('C02', 'C09') and (len(m.raw) + e.h) % 3 == 0 and hasattr(obj, 'iter_label'):
+            # label iteration through the iterator interface, sometimes as the first read after growth
+            st0, il = call(lambda: norm_list(list(obj.iter_label())))
+            if st0 == 'raise' or il != exp_labels:
+                o_ = 'C02.bijection' if P == 'C02' else ('C09.atomic.torn' if pend else 'C09.prefix' if (e.go and e.extra.get('last_growth') and not e.extra.get('failed')) else 'C09.isolation')
+                fail(o_, f'iter_label() gives {il!r:.300}, expected {exp_labels!r:.300}')
         # observed primary views
         st, vals = call(lambda: arr_cells(obj.values))
         st2, it = call(lambda: norm_list(list(obj)))
         st3, ln = call(len, obj)
+        if P == 'C09' and pend and st == st2 == st3 == 'ok' and vals == exp_labels:
+            # a rejected label must not have become a member behind the labels' back
+            for x in pend['supplied']:
+                if unhashable(x):
+                    continue
+                try:
+                    nx = norm(m.coerce(x))
+                except Exception:
+                    nx = norm(x)
+                if nx in exp_labels or any(type(r) is not np.datetime64 and not isinstance(x, type) and r == x for r in m.raw):
+                    continue
+                stc, c = call(lambda: x in obj)
+                if stc == 'ok' and c is not False:
+                    fail('C09.atomic.torn', f'after the rejected growth call, {x!r} is reported as a member although it is not among the labels {vals!r:.200}')
         if P == 'C09':
             if 'raise' in (st, st2, st3):
                 bad = [x for s_, x in ((st, vals), (st2, it), (st3, ln)) if s_ == 'raise'][0]
